@@ -159,6 +159,7 @@ func (in *Interp) schedPoint(g *Goroutine, what string) {
 			others = append(others, r)
 		}
 	}
+	in.freeChoices++
 	k := in.decideFree(len(others) + 1)
 	if k == 0 {
 		return
@@ -197,6 +198,7 @@ func (in *Interp) pickNext() *Goroutine {
 		return nil
 	}
 	if in.cfg.Sched == "B" && len(rs) > 1 && in.cfg.BlockChoice {
+		in.freeChoices++
 		return rs[in.decideFree(len(rs))]
 	}
 	// non-preemptive switches are deterministic: next runnable goroutine in id order
@@ -255,6 +257,7 @@ func (in *Interp) quiesce(self *Goroutine) {
 			return
 		}
 		if in.cfg.Sched == "B" && len(others) > 1 {
+			in.freeChoices++
 			next = others[in.decideFree(len(others))]
 		} else {
 			next = others[0]
@@ -525,9 +528,11 @@ func (in *Interp) execSelect(g *Goroutine, fr *Frame, x *ssa.Select) {
 	}
 	k := ready[0]
 	if len(ready) > 1 && in.cfg.SelectAll {
+		in.freeChoices++
 		k = ready[in.decideFree(len(ready))]
 	} else if len(ready) > 1 && in.cfg.Sched == "B" && in.preempts < in.cfg.Preempt && in.noPreempt == 0 {
 		// a non-first ready case is a scheduling choice and is charged to the same budget
+		in.freeChoices++
 		c := in.decideFree(len(ready))
 		if c != 0 {
 			in.preempts++
